@@ -1767,6 +1767,11 @@ def _emit_block(
                 if key not in emitted_pin_modes:
                     emitted_pin_modes.add(key)
                     lines.append(f"{indent}pinMode({pin_expr}, OUTPUT);")
+                if (node.name, "<declared>") in emitted_pin_modes:
+                    # the name is bound to a NEW Led: it starts switched off
+                    lines.append(f"{indent}__state_{node.name} = false;")
+                    lines.append(f"{indent}__brightness_{node.name} = 0;")
+                emitted_pin_modes.add((node.name, "<declared>"))
             continue
 
         if isinstance(node, BuzzerDecl):
@@ -1804,6 +1809,12 @@ def _emit_block(
                     if key not in emitted_pin_modes:
                         emitted_pin_modes.add(key)
                         lines.append(f"{indent}pinMode({pin_expr}, OUTPUT);")
+                if (node.name, "<declared>") in emitted_pin_modes:
+                    # the name is bound to a NEW RGBLed: it starts dark
+                    lines.append(f"{indent}__rgb_state_{node.name} = false;")
+                    for channel in ("red", "green", "blue"):
+                        lines.append(f"{indent}__rgb_{channel}_{node.name} = 0;")
+                emitted_pin_modes.add((node.name, "<declared>"))
             continue
 
         if isinstance(node, UltrasonicDecl):
